@@ -35,6 +35,13 @@ TlsFails == << EncRecordRaw(22, 771, <<99, 0, 0, 0>>), EncRecordRaw(21, 771, <<>
 DtlsFails == << EncDtlsRecord(23, 65277, 0, <<0, 0, 3>>, <<1>>), EncDtlsRecord(23, 65277, 1, <<0, 0, 4>>, Fill(1, 100)),
                 EncDtlsRecord(22, 65277, 0, <<0, 0, 3>>, <<>>), EncDtlsRecord(24, 65277, 0, <<0, 0, 3>>, <<1, 0, 0>>),
                 EncDtlsRecord(22, 65277, 0, <<0, 0, 5>>, EncDtlsHs(4, 2, 0, 0, 2, <<1, 2>>)), EncDtlsRecord(20, 65277, 0, <<0, 0, 6>>, <<2>>) >>
+(* more than 2^16 bytes of records in one buffer (5 and 9 records of 16 KiB) *)
+HugeCases ==
+  << Mk("tls_parser_many", "parse_tls_plaintext", Concat([j \in 1..5 |-> BigTls[1]])),
+     Mk("tls_parser_many", "parse_tls_plaintext", Concat([j \in 1..9 |-> BigTls[2]]) \o TlsPool[1] \o <<22, 3>>),
+     Mk("tls_parser_many", "parse_tls_plaintext", TlsPool[2] \o Concat([j \in 1..4 |-> BigTls[3]]) \o TlsPool[3]),
+     Mk("parse_dtls_plaintext_records", "parse_dtls_plaintext_record", Concat([j \in 1..5 |-> BigDtls[1]])),
+     Mk("parse_dtls_plaintext_records", "parse_dtls_plaintext_record", DtlsPool[1] \o Concat([j \in 1..8 |-> BigDtls[3]]) \o DtlsPool[3]) >>
 Idx(n) == SetToSeq(UNION {[1..k -> 1..n] : k \in 0..(IF Thorough THEN 3 ELSE 2)} \cup {<<1, 2, 3>>, <<3, 3, 3>>, <<2, 1, 2>>}
                    \cup (IF Thorough THEN {[h \in 1..6 |-> ((h * q) % n) + 1] : q \in 1..12} ELSE {}))
 Build(pool, tails, fn, single) ==
@@ -45,6 +52,7 @@ Build(pool, tails, fn, single) ==
 ASSUME TLCSet(1, Build(TlsPool, TlsTails, "tls_parser_many", "parse_tls_plaintext")
                  \o Build(DtlsPool, DtlsTails, "parse_dtls_plaintext_records", "parse_dtls_plaintext_record")
                  \o Build(SubSeq(TlsPool, 1, 3), SubSeq(TlsTails, 1, 5), "tls_parser", "parse_tls_plaintext")
+                 \o HugeCases
                  \o MidCases(TlsPool, TlsFails, "tls_parser_many", "parse_tls_plaintext")
                  \o MidCases(DtlsPool, DtlsFails, "parse_dtls_plaintext_records", "parse_dtls_plaintext_record")
                  \o BigCases(TlsPool, BigTls, "tls_parser_many", "parse_tls_plaintext")
